@@ -145,6 +145,8 @@ def replay(pid, path, opts):
 def c01(pid, tier, seed, t0):
     stages = [
         H("movegen-checked", "c01", "checked"),
+        # the shipped build has no debug assertions and no overflow checks: same workload, optimised profile
+        H("movegen-opt", "c01", "opt", group="c01-opt"),
         H("movegen-asan", "c01", "asan", group="c01-asan", tiers=("thorough",), args=["--tier-override", "quick"]),
         M("movegen-miri", "miri-c01", [["--root-lo", str(i), "--root-hi", str(i + 4)] for i in range(0, 10, 5)]),
     ]
@@ -161,13 +163,14 @@ def c01(pid, tier, seed, t0):
 WALK_FEATURES = ("castle_kingside", "castle_queenside", "castle_white", "castle_black", "en_passant_capture",
                  "promotion_Q", "promotion_R", "promotion_B", "promotion_N", "promotion_N_capture",
                  "rook_captured_on_home_square", "null_move", "undo_null", "undo_move", "nesting_ge_20",
-                 "null_move_with_ep_target_pending")
+                 "null_move_with_ep_target_pending", "root_with_clock_ge_255", "root_with_large_move_number")
 WALK_ASSUME = ["oracle = refchess advanced by the same moves (rules), pre-move snapshots (reversibility)",
                "histories are sampled; nesting depth <= 40, as deep as a search of the default depth limits goes"]
 
 
 def c02(pid, tier, seed, t0):
     stages = [H("walk-checked", "c02", "checked", args={"quick": ["--scale", "3"], "thorough": ["--scale", "1"]}),
+              H("walk-opt", "c02", "opt", group="c02-opt", args={"quick": ["--scale", "1"], "thorough": ["--scale", "1"]}),
               M("walk-miri", "miri-c02", [["--root-lo", str(i), "--root-hi", str(i + 4)] for i in range(0, 10, 5)])]
     return run_stages(pid, tier, seed, t0, "exploration", stages,
                       required=WALK_FEATURES + ("double_push_with_neighbour", "double_push_without_neighbour",
@@ -178,14 +181,16 @@ def c02(pid, tier, seed, t0):
 
 
 def c03(pid, tier, seed, t0):
-    stages = [H("walk-checked", "c03", "checked", args={"quick": ["--scale", "3"], "thorough": ["--scale", "1"]})]
+    stages = [H("walk-checked", "c03", "checked", args={"quick": ["--scale", "3"], "thorough": ["--scale", "1"]}),
+              H("walk-opt", "c03", "opt", group="c03-opt", args={"quick": ["--scale", "1"], "thorough": ["--scale", "1"]})]
     return run_stages(pid, tier, seed, t0, "exploration", stages, required=WALK_FEATURES + ("transposition_pairs_compared",),
                       assumptions=WALK_ASSUME + ["'different keys on everything explored' is claimed for the positions "
                                                  "in the run-wide map only (capped, see x_positions_in_collision_map)"])
 
 
 def c15(pid, tier, seed, t0):
-    stages = [H("walk-checked", "c15", "checked", args={"quick": ["--scale", "3"], "thorough": ["--scale", "1"]})]
+    stages = [H("walk-checked", "c15", "checked", args={"quick": ["--scale", "3"], "thorough": ["--scale", "1"]}),
+              H("walk-opt", "c15", "opt", group="c15-opt", args={"quick": ["--scale", "1"], "thorough": ["--scale", "1"]})]
     return run_stages(pid, tier, seed, t0, "exploration", stages, required=WALK_FEATURES, assumptions=WALK_ASSUME)
 
 
@@ -220,7 +225,8 @@ def c07(pid, tier, seed, t0):
 
 
 def c10(pid, tier, seed, t0):
-    stages = [H("picker-checked", "c10", "checked", args={"quick": ["--scale", "8"], "thorough": ["--scale", "2"]})]
+    stages = [H("picker-checked", "c10", "checked", args={"quick": ["--scale", "8"], "thorough": ["--scale", "2"]}),
+              H("picker-opt", "c10", "opt", group="c10-opt", args={"quick": ["--scale", "3"], "thorough": ["--scale", "1"]})]
     return run_stages(pid, tier, seed, t0, "exploration", stages,
                       required=("full_streams", "loud_streams", "coincidence_hash_eq_killer",
                                 "coincidence_counter_eq_killer", "coincidence_counter_eq_hash",
@@ -232,6 +238,7 @@ def c10(pid, tier, seed, t0):
 
 def c11(pid, tier, seed, t0):
     stages = [H("draws-checked", "c11", "checked", args={"quick": ["--scale", "2"], "thorough": ["--scale", "4"]}),
+              H("draws-opt", "c11", "opt", group="c11-opt", args={"quick": ["--scale", "1"], "thorough": ["--scale", "2"]}),
               H("draws-in-search", "c11s", "checked", group="c11s", args={"quick": [], "thorough": ["--cases", "400000"]})]
     return run_stages(pid, tier, seed, t0, "exploration", stages,
                       required=("repetitions_observed", "repetition_of_oldest_position_in_window",
@@ -249,6 +256,7 @@ def c11(pid, tier, seed, t0):
 
 def c16(pid, tier, seed, t0):
     stages = [H("eval-checked", "c16", "checked", args={"quick": ["--scale", "8"], "thorough": ["--scale", "8"]}),
+              H("eval-opt", "c16", "opt", group="c16-opt", args={"quick": ["--scale", "4"], "thorough": ["--scale", "4"]}),
               M("eval-miri", "miri-c16", [["--root-lo", "0", "--root-hi", "4"], ["--root-lo", "5", "--root-hi", "9"]])]
     return run_stages(pid, tier, seed, t0, "exploration", stages,
                       required=("phase_above_24", "six_or_more_queens", "blend_cube_triples"),
@@ -257,7 +265,8 @@ def c16(pid, tier, seed, t0):
 
 
 def c18(pid, tier, seed, t0):
-    stages = [H("san-checked", "c18", "checked", args={"quick": ["--scale", "2"], "thorough": ["--scale", "1"]})]
+    stages = [H("san-checked", "c18", "checked", args={"quick": ["--scale", "2"], "thorough": ["--scale", "1"]}),
+              H("san-opt", "c18", "opt", group="c18-opt", args={"quick": ["--scale", "1"], "thorough": ["--scale", "1"]})]
     return run_stages(pid, tier, seed, t0, "exploration", stages,
                       required=("ambiguity_neither_file_nor_rank_shared", "ambiguity_file_shared",
                                 "ambiguity_rank_shared", "ambiguity_both_shared", "capturing_promotions",
@@ -284,7 +293,8 @@ def c19(pid, tier, seed, t0):
 
 
 def c20(pid, tier, seed, t0):
-    stages = [H("see-checked", "c20", "checked", args={"quick": ["--scale", "10"], "thorough": ["--scale", "8"]})]
+    stages = [H("see-checked", "c20", "checked", args={"quick": ["--scale", "10"], "thorough": ["--scale", "8"]}),
+              H("see-opt", "c20", "opt", group="c20-opt", args={"quick": ["--scale", "5"], "thorough": ["--scale", "4"]})]
     return run_stages(pid, tier, seed, t0, "exploration", stages,
                       required=("target_undefended", "victim_ge_attacker", "swaplist_order_irrelevant",
                                 "swaplist_with_xray_attacker", "capturing_promotions"),
